@@ -145,8 +145,34 @@ Definition show (o : outcome) (base : tok -> list N) : list N :=
 
 Definition items_of (n : nat) : list tok := map N.of_nat (seq 1 n).
 
+(** destructor-panic cases [[20 + kind; n; k]]: the last handle of a block holding the tokens [toks] is released and
+    the destructor of token [k] panics.  Drop glue destroys the remaining values while unwinding and [Box] frees its
+    memory on the unwind path too: every value destroyed once, in order, the block returned once, the panic propagates
+    iff token [k] was among the destroyed ones.  (Rust's drop elaboration; validated against the implementation.) *)
+Definition dpanic_toks (kind : N) (n : nat) : option (list N) :=
+  match kind with
+  | 0 | 4 | 5 => Some [0]
+  | 1 | 6 | 8 => Some (map N.of_nat (seq 0 n))
+  | 2 | 3 => Some (map N.of_nat (seq 0 (S n)))
+  | 7 => Some [0]                     (* MaybeUninit elements: only the header is destroyed *)
+  | _ => None
+  end.
+(** kinds 20..23 (case [[40 + j; 0; 0]]): a value with two owners; unwrap_or_clone / make_mut / make_unique /
+    OffsetArc::make_mut clone it because it is shared, and the other owner is released DURING that clone (the payload's
+    Clone does it re-entrantly: what another thread could do at that point).  The handle the operation then gives up is
+    the last one: the original value (token 0) is destroyed exactly once, its block returned once, the result is a sole
+    owner of the clone. *)
+Definition run_dpanic (kind n k : N) : list N :=
+  if 20 <=? kind then (if (kind <? 24) && (n =? 0) && (k =? 0) then [0; SEP; 0; SEP; 1; 1] else [98]) else
+  if 16 <? n then [99] else
+  match dpanic_toks kind (N.to_nat n) with
+  | None => [98]
+  | Some toks => [if existsb (N.eqb k) toks then 1 else 0; SEP] ++ toks ++ [SEP; 1]
+  end.
+
 Definition run_ctor1 (dbg : bool) (op : list N) : list N :=
   match op with
+  | [c; n; k] => if (20 <=? c) && (c <? 60) then run_dpanic (c - 20) n k else [99]
   | ctor :: n :: panic_at :: extra :: nl :: rest =>
     if (64 <? n) || (64 <? extra) then [99] else
     let k := N.to_nat nl in
